@@ -59,6 +59,9 @@ def make_train(ns, chunk_sizes, rng, nunits, maxwf, nspk):
         other = 3 + 2 * ((u - 3) // 2 + 1) % (2 * nunits)
         if other != u and (s, other) not in {(a, b) for a, b, _ in spikes}:
             spikes.append((s, other, p))
+    # the first and the last valid sample are always present (in the largest unit, so that they can be drawn)
+    big = 3 + 2 * 2
+    spikes += [(TROUGH + 1, 3, 383), (lim - 1, 3, 0), (lim - 2, big, 190)]   # unit 3 is below max_wf: always drawn
     spikes = sorted(set(spikes), key=lambda x: (x[0], x[1]))
     # spike number 0 must sometimes be a valid, selectable spike (F8): put one at a valid time first
     if rng.random() < 0.7:
@@ -237,6 +240,13 @@ def scenarios(ctx):
         for ti in range(trains):
             maxwf = [8, 5, 16, 3, 12][ti % 5]
             combos = [(500, 1), (3000, 2), (10000, 4)] if ctx.quick else [(500, 1), (777, 8), (1000, 2), (3000, 4), (6500, 3), (10000, 8)]
+            # chunk sizes whose last chunk is shorter / just longer than the waveform window and its margins
+            # (remainders around LEN - TROUGH = 86 and LEN = 128), by the classes of spec RowsOf / SnipLen
+            rems = [100, 1] if ctx.quick else [1, 85, 86, 87, 100, 127, 128, 129]
+            for r in rems[ti % 2::2] if ctx.quick else rems:
+                k = next((k for k in range(2, 12) if (ns - r) % k == 0 and (ns - r) // k >= 500), None)
+                if k:
+                    combos = combos + [((ns - r) // k, 1 + (r % 3))]
             for chunk, nj in combos:
                 scs.append({"kind": kind, "ns": ns, "rec": ri, "train": ti, "maxwf": maxwf, "chunk": chunk, "njobs": nj,
                             "seed": base + 10 * ri + ti, "nunits": 4 + ti % 3, "nspk": 400, "group": f"r{ri}t{ti}"})
